@@ -115,6 +115,13 @@ def draw_t0(draw, dt, span=40):
     if trans and draw(st.booleans()):
         return draw(st.sampled_from(trans)) - draw(
             st.integers(-2, span)) * dt
+    special = draw(st.integers(0, 9))
+    if special == 0:
+        # the record starts at, or runs across, epoch 0
+        return -draw(st.sampled_from([0, 0, 0, 1, 2, 5, 17, span])) * dt
+    if special == 1:
+        # historical data: negative epochs (1 March 1965)
+        return -152596800 + draw(st.integers(-100, 100)) * dt
     return T0_BASE + draw(st.integers(-2000, 200000)) * dt
 
 
